@@ -11,7 +11,7 @@ SPEC = {
             "2^k +- 1, 10^k, random to 2^63 snapped next to rounding ties; decimal rounding ties of the seconds field (m + 0.5) * 10^(6-p) us "
             "(every tie for p <= 3, strided for p = 4, 5, plus the ties next to every whole second) +- 1 us x 10 minute/hour/day offsets; format_time: every day boundary 1970..2100 +- 1 s, "
             "Feb 28/29 -> Mar 1 and Dec 31 -> Jan 1 of every year to 9999, hh:59:59 / 23:59:59.999999 carries, random to "
-            "9999-12-31, process TZ = UTC+05:45; sizes: 2^(10k) x {1, 1023/1024, 1.005, 1.995, 999.994, 1023.99, ...} +- 2, "
+            "9999-12-31, process TZ = UTC+05:45; call histories (one thread and four concurrent threads) mixing format_time_natural on the same/neighbouring second, format_duration and format_size before format_time; sizes: 2^(10k) x {1, 1023/1024, 1.005, 1.995, 999.994, 1023.99, ...} +- 2, "
             "2^k +- 1, 0..4095, rounding ties, random, both include_bytes values, and canonical texts back through "
             "parse_size -> format_size; timeval: 2^k +- 1, second boundaries, random to 2^63. "
             "distinct_nontrivial = distinct (function, magnitude branch, precision, shape of the seconds field / calendar "
@@ -32,6 +32,8 @@ SPEC = {
         "dur:lt1s:p-1:*", "dur:lt1m:p0:*", "dur:lt1h:p0:pad0", "dur:lt1h:p3:carry60", "dur:lt1d:p6:*", "dur:ge1d:p-1:*",
         "dur:ge1d:p0:pad0", "dur:lt1d:p0:pad0", "dur:*:tie",
         "tiefam:p0", "tiefam:p3", "tiefam:p5", "tiefam:offset:59min", "tiefam:offset:2d-1min",
+        "history:after-format_time_natural:same-second", "history:after-format_time_natural:next-second",
+        "history:after-format_time:same-second", "history-threads:after-format_time_natural:same-second", "history:after-start:*",
         "time:day-boundary", "time:leap-year", "time:leap-century", "time:nonleap-century", "time:common-year",
         "time:second59", "time:year-end", "time:random:99xx", "time:random:19xx", "time:extreme",
         "size:bytes:0:*", "size:KB:0:*", "size:MB:1:*", "size:GB:0:*", "size:TB:0:*", "size:PB:0:*", "size:EB:0:*",
